@@ -79,7 +79,7 @@ impl Bits {
         // length-changing fault)
         let mut stream = Ps2Decoder::new();
         let mut aligned = true;
-        let mut kb = Keyboard::new(DynSet::new(2), DynLayout::Direct(2), hc(true));
+        let mut kb = KbAny::new(2, DynLayout::Direct(2), hc(true));
         let mut kb_mirror = ScancodeSet2::new();
         let mut violation: Option<Violation> = None;
         let mut any_fault = false;
